@@ -99,6 +99,38 @@ def handler(c):
             shutil.rmtree(d, ignore_errors=True)
         res['answers_shared_dir'] = ask_all(mine, c['queries'])
     res['answers'] = ask_all(ds, c['queries'], subsec=c.get('subsec'))
+    if c.get('resource'):
+        # one handler object: asked everything on the files as written, then given a source whose files carry every figure doubled
+        # (data_sources is a public attribute) and asked again: it must now answer the doubled figures
+        doubled = dict((a, [[r[0]] + [None if v is None else v * 2.0 for v in r[1:]] for r in rows]) for a, rows in c['assets'].items())
+        dh3 = BacktestDataHandler(None, data_sources=[build(c['assets'], c['adjust'])])
+
+        def ask3():
+            o3 = []
+            for a, t in c['queries']:
+                sym, dt = 'EQ:' + a, ts(t)
+                o3.append([num(dh3.get_asset_latest_bid_price(dt, sym)), num(dh3.get_asset_latest_ask_price(dt, sym)),
+                           num(dh3.get_asset_latest_mid_price(dt, sym))])
+            return o3
+        before = ask3()
+        dh3.data_sources = [build(doubled, c['adjust'])]
+        res['answers_resourced'] = [before, ask3()]
+    if c.get('split_day') is not None:
+        # a vendor with recent bars only (from split_day on) is listed before the one with the full history: whatever the
+        # order of the questions, the handler's answers are those of the full history
+        recent = dict((a, [r for r in rows if r[0] >= c['split_day']]) for a, rows in c['assets'].items())
+        recent = dict((a, rows) for a, rows in recent.items() if rows)
+        if recent:
+            dh2 = BacktestDataHandler(None, data_sources=[build(recent, c['adjust']), build(c['assets'], c['adjust'])])
+            out2 = [None] * len(c['queries'])
+            # asked latest instant first (so the recent vendor serves first), then backwards in time
+            for i in sorted(range(len(c['queries'])), key=lambda k: -c['queries'][k][1]):
+                a, t = c['queries'][i]
+                sym, dt = 'EQ:' + a, ts(t)
+                ba = dh2.get_asset_latest_bid_ask_price(dt, sym)
+                out2[i] = [num(dh2.get_asset_latest_bid_price(dt, sym)), num(dh2.get_asset_latest_ask_price(dt, sym)),
+                           [num(ba[0]), num(ba[1])], num(dh2.get_asset_latest_mid_price(dt, sym))]
+            res['answers_two_sources'] = out2
     if c.get('cut_day') is not None:
         cut = c['cut_day']
         trunc = dict((a, [r for r in rows if r[0] <= cut]) for a, rows in c['assets'].items())
